@@ -18,7 +18,7 @@ RULE = ("(a) mappings word-like key -> non-empty list of non-empty strings over 
         "or whitespace character; (b) every string over the alphabet {; = SP \" , a % 1} up to length 6 (quick) / 9 "
         "(thorough) through the inferring parser, up to length 4 through every supplied dialect, random strings to length "
         "200; non-trivial = contains a structural character; distinct by mapping+dialect / by string")
-REQUIRED = ["(a) print/parse round trips", "(b) strings parsed (inferred)", "(b) strings parsed (supplied dialect)",
+REQUIRED = ["interludes with ignore_url_escape_characters switched on and restored", "(a) print/parse round trips", "(b) strings parsed (inferred)", "(b) strings parsed (supplied dialect)",
             "_reconstruct contract evaluations"]
 ASSUMPTIONS = [
     "GFF3-style = dialect dictionaries with fmt 'gff3' (percent-encoding), key/value separator '=' or ' '; GTF-style = fmt 'gtf'",
@@ -75,8 +75,34 @@ def mapping(rng, gtf):
     return m
 
 
+def switched_on_interlude(ctx):
+    """Somebody else in this process prints and parses with constants.ignore_url_escape_characters switched on, then
+    restores it.  Nothing is judged here (the statement is about the default); everything judged afterwards must still hold."""
+    from gffutils import constants
+    from gffutils.feature import Feature, feature_from_line
+
+    constants.ignore_url_escape_characters = True
+    try:
+        f = Feature(seqid="chr1", source="s", featuretype="gene", start=1, end=2,
+                    attributes={"Note": ["".join(R.RESERVED_LIST) + " %41", "a;b", "c,d"], "ID": ["x=y&z"]})
+        line = str(f)
+        for part in line.split("\n"):
+            try:
+                feature_from_line(part if part.count("\t") >= 8 else "chr1\t.\tgene\t1\t2\t.\t+\t.\tNote=a%3Bb%2Cc")
+            except Exception:
+                pass
+    except Exception:
+        pass
+    finally:
+        constants.ignore_url_escape_characters = False
+    ctx.mon("interludes with ignore_url_escape_characters switched on and restored")
+
+
 def setup(ctx):
     contracts.install_reconstruct()
+    if ctx.shard % 2 == 1:
+        # before any reserved character has been printed in this process
+        switched_on_interlude(ctx)
 
 
 # --- known finding F-C08-1 ----------------------------------------------------
@@ -210,6 +236,8 @@ def run(ctx):
     ds = dialects()
     # (a) round trips
     for _ in range(ctx.budget(24000, 1600000)):
+        if rng.random() < 0.0005:
+            switched_on_interlude(ctx)
         d = rng.choice(ds)
         gtf = d["fmt"] == "gtf"
         m = mapping(rng, gtf)
